@@ -90,8 +90,6 @@ func c10ret(err error) string {
 	switch {
 	case err == nil:
 		return "ok"
-	case isRefusal(err):
-		return "refused"
 	}
 	return "err"
 }
